@@ -14,11 +14,15 @@ Definition num_wf (t : list N) : bool :=
 (* a slice bound: omitted or a number *)
 Definition bound_wf (t : list N) : bool := match t with [] => true | _ :: _ => num_wf t end.
 (* characters that end a bound: the colon and the closing bracket *)
-Definition stopc (x : N) : Prop := x = 58 \/ x = 93.
+Definition stopc (x : N) : Prop := x = 58 \/ x = 93 \/ x = 44.
+(* what follows a whole subscript: the closing bracket, or the comma of a union *)
+Definition endc (x : N) : Prop := x = 93 \/ x = 44.
+Lemma endc_stopc x : endc x -> stopc x.
+Proof. intros [-> | ->]; [right; left|right; right]; reflexivity. Qed.
 Lemma stopc_not_digit x : stopc x -> in_ranges x [(48, 57)] = false.
-Proof. intros [-> | ->]; reflexivity. Qed.
+Proof. intros [-> | [-> | ->]]; reflexivity. Qed.
 Lemma stopc_not_sign x : stopc x -> in_ranges x [(45, 45); (43, 43)] = false.
-Proof. intros [-> | ->]; reflexivity. Qed.
+Proof. intros [-> | [-> | ->]]; reflexivity. Qed.
 
 Lemma ev_digits_stop ds x rest pos : forallb is_digit ds = true -> stopc x ->
   evG (PStar (PCls false [(48, 57)])) (ds ++ x :: rest) pos (POk (x :: rest) (pos + List.length ds) []).
@@ -96,10 +100,10 @@ Proof.
     eapply ev_seq_ok; [apply (ev_lit_ok G [58]); apply strip1_ok|apply ev_space_stop; exact Hc|reflexivity].
   - cbn [List.length app]. f_equal. lia.
 Qed.
-Lemma ev_rule29_fail rest pos : evG (PRef 29) (93 :: rest) pos PFail.
+Lemma ev_rule29_fail x rest pos : endc x -> evG (PRef 29) (x :: rest) pos PFail.
 Proof.
-  eapply ev_ref; [reflexivity|]. eapply ev_seq_fail2; [apply ev_space_stop; discriminate|].
-  apply ev_seq_fail. apply (ev_lit_fail G [58]). apply strip1_no. discriminate.
+  intros Hx. eapply ev_ref; [reflexivity|]. eapply ev_seq_fail2; [apply ev_space_stop; destruct Hx as [-> | ->]; discriminate|].
+  apply ev_seq_fail. apply (ev_lit_fail G [58]). apply strip1_no. destruct Hx as [-> | ->]; discriminate.
 Qed.
 
 Lemma ev_rule29_app t x rest pos : bound_wf t = true -> x <> 32 ->
@@ -124,11 +128,11 @@ Lemma slice_body_len a b c : List.length (slice_body a b c) =
 Proof. unfold slice_body. rewrite app_length. cbn [List.length]. rewrite app_length. destruct c; cbn [List.length]; lia. Qed.
 
 (* slice *)
-Lemma ev_rule25 a b c rest pos : slice_ok a b c = true ->
-  evG (PRef 25) (slice_body a b c ++ 93 :: rest) pos
-      (POk (93 :: rest) (pos + List.length (slice_body a b c)) (slice_tokens pos a b c)).
+Lemma ev_rule25 a b c x rest pos : slice_ok a b c = true -> endc x ->
+  evG (PRef 25) (slice_body a b c ++ x :: rest) pos
+      (POk (x :: rest) (pos + List.length (slice_body a b c)) (slice_tokens pos a b c)).
 Proof.
-  intros Hok. unfold slice_ok in Hok. apply andb_true_iff in Hok. destruct Hok as [Hab Hc]. apply andb_true_iff in Hab. destruct Hab as [Ha Hb].
+  intros Hok Hx. assert (Hx32 : x <> 32) by (destruct Hx as [-> | ->]; discriminate). pose proof (endc_stopc x Hx) as Hxs. unfold slice_ok in Hok. apply andb_true_iff in Hok. destruct Hok as [Hab Hc]. apply andb_true_iff in Hab. destruct Hab as [Ha Hb].
   rewrite slice_body_len. unfold slice_body, slice_tokens. eapply ev_ref; [reflexivity|]. rewrite <- app_assoc. cbn [app].
   destruct c as [t|].
   - rewrite <- app_assoc. cbn [app]. eapply ev_conv.
@@ -136,15 +140,15 @@ Proof.
       eapply ev_seq_ok; [apply (ev_rule29_app b 58 _ _ Hb); discriminate| |reflexivity].
       eapply ev_seq_ok; [apply (ev_rule26 b 58 _ _ Hb); left; reflexivity| |reflexivity].
       apply ev_alt_l.
-      eapply ev_seq_ok; [apply (ev_rule29_app t 93 rest _ Hc); discriminate| |reflexivity].
-      apply (ev_rule26 t 93 rest _ Hc). right. reflexivity.
+      eapply ev_seq_ok; [apply (ev_rule29_app t x rest _ Hc); exact Hx32| |reflexivity].
+      apply (ev_rule26 t x rest _ Hc). exact Hxs.
     + cbn [app]. f_equal; [lia|]. repeat (f_equal; try lia).
   - cbn [app]. rewrite app_nil_r. eapply ev_conv.
     + eapply ev_seq_ok; [apply (ev_rule26 a 58 _ pos Ha); left; reflexivity| |reflexivity].
-      eapply ev_seq_ok; [apply (ev_rule29_app b 93 rest _ Hb); discriminate| |reflexivity].
-      eapply ev_seq_ok; [apply (ev_rule26 b 93 rest _ Hb); right; reflexivity| |reflexivity].
-      apply ev_alt_r; [apply ev_seq_fail; apply ev_rule29_fail|].
-      eapply ev_seq_ok; [apply ev_space_stop; discriminate|apply ev_act|reflexivity].
+      eapply ev_seq_ok; [apply (ev_rule29_app b x rest _ Hb); exact Hx32| |reflexivity].
+      eapply ev_seq_ok; [apply (ev_rule26 b x rest _ Hb); exact Hxs| |reflexivity].
+      apply ev_alt_r; [apply ev_seq_fail; apply ev_rule29_fail; exact Hx|].
+      eapply ev_seq_ok; [apply ev_space_stop; exact Hx32|apply ev_act|reflexivity].
     + cbn [app]. f_equal; [lia|]. repeat (f_equal; try lia).
 Qed.
 
@@ -192,7 +196,7 @@ Proof.
         eapply ev_seq_ok; [| |reflexivity].
         -- eapply ev_ref; [reflexivity|].
            eapply ev_seq_ok; [|apply ev_act|reflexivity].
-           apply ev_alt_l. eapply ev_seq_ok; [apply (ev_rule25 a b c rest _ Hok)|apply ev_act|reflexivity].
+           apply ev_alt_l. eapply ev_seq_ok; [apply (ev_rule25 a b c 93 rest _ Hok); left; reflexivity|apply ev_act|reflexivity].
         -- eapply ev_seq_ok; [apply ev_star_stop| |reflexivity].
            ++ apply ev_seq_fail. apply ev_sep_fail; discriminate.
            ++ apply ev_not_ok. apply ev_sep_fail; discriminate.
